@@ -104,7 +104,7 @@ Lemma strip_eol_no10 : forall l, no10 l = true -> strip_eol l = l.
 Proof.
   intros l H. unfold strip_eol. destruct (last l 0 =? 10) eqn:E; [|reflexivity].
   exfalso. apply N.eqb_eq in E. destruct l as [|x l']; [discriminate|].
-  pose proof (last_In x l' 0) as Hin.
+  pose proof (last_In x l' 0) as Hin. unfold byte in *.
   unfold no10 in H. rewrite forallb_forall in H. specialize (H _ Hin). rewrite E in H. discriminate.
 Qed.
 
